@@ -68,7 +68,11 @@ def _run_variant(v):
                     contextlib.redirect_stderr(buf):
                 os.environ['PVERIF_NO_EVIDENCE'] = '1'
                 rc, ctx = run_check(prop, 'quick', 0, d)
-            rules = sorted({f.rule for f in ctx.findings}) if ctx else []
+            from .core import load_known, matches_known
+            known = [e for e in load_known() if e.get('status') == 'known']
+            rules = sorted({f.rule for f in ctx.findings
+                            if not any(matches_known(f, e) for e in known)}
+                           ) if ctx else []
             out['results'][prop] = {'rc': rc, 'rules': rules,
                                     'text': buf.getvalue()[-1500:]}
     finally:
